@@ -115,9 +115,9 @@ PlansAt(dd, ss) ==
      \cup (IF FN[FN[n].parent].kids[1] = n /\ FN[FN[n].parent].usage = "R" /\ ~FN[FN[n].parent].wrapper
            THEN {[seg |-> ss, ele |-> 0, sub |-> 0, kind |-> "MissingRequiredLoop", local |-> FALSE]} ELSE {})
      \cup (IF FN[n].rep > 0 /\ FN[n].rep <= 12 /\ FN[FN[n].parent].kids[1] # n
-           THEN {[seg |-> ss, ele |-> 0, sub |-> 0, kind |-> "SegOverMax", local |-> FALSE]} ELSE {})
+           THEN {[seg |-> ss, ele |-> 0, sub |-> 0, kind |-> "SegOverMax", local |-> InSet(dd, ss)]} ELSE {})
      \cup (IF FN[FN[n].parent].kids[1] = n /\ FN[FN[n].parent].rep > 0 /\ FN[FN[n].parent].rep <= 12 /\ ~FN[FN[n].parent].wrapper
-           THEN {[seg |-> ss, ele |-> 0, sub |-> 0, kind |-> "LoopOverMax", local |-> FALSE]} ELSE {})
+           THEN {[seg |-> ss, ele |-> 0, sub |-> 0, kind |-> "LoopOverMax", local |-> InSet(dd, ss)]} ELSE {})
 Emit == (d <= Len(Docs) /\ s >= 1 /\ s <= Len(Docs[d].segs)) =>
            PrintT(<<"PLANS", ToJson([doc |-> d, plans |-> PlansAt(d, s)])>>)
 =============================================================================
